@@ -51,6 +51,45 @@ impl Condvar {
         self.0.notify_one()
     }
 
+    pub fn notify_all(&self) {
+        self.0.notify_all()
+    }
+
+    pub fn wait<'a, T>(&self, guard: MutexGuard<'a, T>) -> std::sync::LockResult<MutexGuard<'a, T>> {
+        self.0.wait(guard)
+    }
+
+    pub fn wait_while<'a, T, F: FnMut(&mut T) -> bool>(
+        &self,
+        guard: MutexGuard<'a, T>,
+        condition: F,
+    ) -> std::sync::LockResult<MutexGuard<'a, T>> {
+        self.0.wait_while(guard, condition)
+    }
+
+    /// Like `wait_timeout_while`, the time-out is a generated (bounded) choice.
+    pub fn wait_timeout<'a, T>(
+        &self,
+        guard: MutexGuard<'a, T>,
+        _dur: Duration,
+    ) -> std::sync::LockResult<(MutexGuard<'a, T>, WaitTimeoutResult)> {
+        use shuttle::rand::Rng;
+        let fire =
+            TIMEOUT_BUDGET.with(|c| c.get()) > 0 && shuttle::rand::thread_rng().gen_bool(0.5);
+        if fire {
+            TIMEOUT_BUDGET.with(|c| c.set(c.get() - 1));
+            TIMEOUTS_FIRED.with(|c| c.set(c.get() + 1));
+            return Ok((guard, WaitTimeoutResult(true)));
+        }
+        match self.0.wait(guard) {
+            Ok(g) => Ok((g, WaitTimeoutResult(false))),
+            Err(e) => Err(std::sync::PoisonError::new((
+                e.into_inner(),
+                WaitTimeoutResult(false),
+            ))),
+        }
+    }
+
     /// shuttle has no clock: whether the time-out fires is a generated choice (bounded per
     /// execution), otherwise the call waits for a notification.
     pub fn wait_timeout_while<'a, T, F: FnMut(&mut T) -> bool>(
